@@ -213,6 +213,7 @@ def join_job(job):
     try:
         db, hd = GD.build(spec)
         before = O.dump_db(db)
+        state0 = O.object_state(db)
     except Exception as e:  # noqa: BLE001
         return {'skip': type(e).__name__}
     fails = []
@@ -247,6 +248,10 @@ def join_job(job):
     after = O.dump_db(db)
     if after != before:
         fails.append(('rendering changed the model', None))
+    state1 = O.object_state(db)
+    if state1 != state0:
+        diff = [state1[k][0] for k in state1 if state0.get(k) != state1[k]][:3] + ['(new objects)' for k in state1 if k not in state0][:1]
+        fails.append(('rendering left state behind on the model objects (attributes added or changed: a cache)', ', '.join(map(str, diff))))
     # join structure
     if seen['db.dbml'][0] == 'ok':
         parts = []
